@@ -2,12 +2,12 @@ package main
 
 import (
 	"bytes"
-	"context"
 	"crypto/x509"
 	"fmt"
 	"math/rand/v2"
 	"strings"
 	"time"
+	"verif/monlog"
 
 	"github.com/scionproto/scion/pkg/scrypto/cms/protocol"
 	"github.com/scionproto/scion/pkg/scrypto/cppki"
@@ -90,7 +90,7 @@ type c37Stats struct {
 }
 
 func runC37Request(r *mon.Run, pool *gen.Pool, rng *rand.Rand, p c37Plan, tl timeline, st *c37Stats) {
-	ctx := context.Background()
+	ctx := monlog.Alternate() // log level is a configuration dimension
 	dr := pool.Drawer(rng)
 	w := buildWorld(dr, 1, tl, time.Now())
 	d := newTrustDB()
